@@ -57,7 +57,17 @@ func Run(ctx *core.Ctx) {
 		"whose requests carry bodies (Content-Length ≤4 KiB / >4 KiB / >64 KiB, chunked with and without trailers, Expect: 100-continue, bodies that read like complete " +
 		"HTTP requests, body with the head / after the proxy's answer / never completed), mixed with forwarded requests (also answered by an origin that puts stray body " +
 		"bytes after a HEAD/204/304 head, or announces close), step by step or pipelined in one write: response k answers request k, the origin sees exactly the forwarded " +
-		"requests, close exactly when announced, compared with ReqConn.serve on the bytes the client sent; non-trivial = anything but a plain 200 with " +
+		"requests, close exactly when announced, compared with ReqConn.serve on the bytes the client sent; plus a REASON-PHRASE GRAMMAR (standard, empty, no phrase and no " +
+		"blank at all, letter-initial, starting with a digit of the status code / another digit / the whole code once or twice / the code glued to text, digits only, " +
+		"leading blanks, tabs, trailing blanks, containing HTTP/1.1, 1-6 KiB, bytes >= 0x80, random mixes, extra blanks before the code) on one exchange in four and as a " +
+		"matrix kind x {HEAD with 200/404/301/503/204/304, GET/POST 204, GET 304 = the header-only writer; bodies with 200/201/302/404/429/500/599 = Response.Write}: the first " +
+		"line the client receives is compared byte for byte with Model/RespStatus (RESP statusline) and with the origin's line (a line that ends after the code is " +
+		"expected with the code repeated as phrase: net/http's normalisation, c02_status_line_bare_code); plus SLOW ORIGIN BODIES under proxies configured with every " +
+		"combination of ReadTimeout / ReadHeaderTimeout / IdleTimeout / WriteTimeout in {not set, 300-500 ms}: head at once, body (Content-Length, chunked, " +
+		"close-delimited, event stream; direct and MITM) in 3-5 pieces over 2-4x the largest limit, the client reads promptly: whenever WriteTimeout is not set the " +
+		"complete response must arrive whatever the other limits are (Model/RespRelay relayWriteDeadline; a failed attempt is repeated twice before it counts); " +
+		"configurations WITH a WriteTimeout are neither run nor judged here - one absolute write deadline per response is C15's recorded finding F45; " +
+		"non-trivial = anything but a plain 200 with " +
 		"Content-Length; distinct = distinct (configuration, exchange)")
 	pool := &envPool{envs: map[envKey]*env{}, ctx: ctx}
 	defer pool.closeAll()
@@ -88,6 +98,15 @@ func Run(ctx *core.Ctx) {
 			ctx.Sample(cc)
 		}
 		jobs <- cc
+	}
+	// the reason-phrase grammar on every path of the status line (thorough: three rounds)
+	for round, n := 0, ctx.N(1, 3); round < n; round++ {
+		for i, cc := range reasonMatrix(ctx.Rng.Sub()) {
+			if round == 0 && i == 70 {
+				ctx.Sample(cc)
+			}
+			jobs <- cc
+		}
 	}
 	close(jobs)
 	wg.Wait()
@@ -170,6 +189,21 @@ func Run(ctx *core.Ctx) {
 	close(ljobs)
 	wg.Wait()
 
+	// slow origin bodies under every combination of the connection limits (all at once: they mostly wait)
+	spool := &slowPool{envs: map[string]*env{}, ctx: ctx}
+	defer spool.closeAll()
+	for i, sc := range slowMatrix(ctx, ctx.Rng.Sub()) {
+		if i == 0 {
+			ctx.Sample(sc)
+		}
+		wg.Add(1)
+		go func(sc *slowCase) {
+			defer wg.Done()
+			runSlow(ctx, spool, sc)
+		}(sc)
+	}
+	wg.Wait()
+
 	// torn bodies
 	for _, f := range []string{"garbage-chunk", "corrupt-gzip", "short-cl"} {
 		for _, size := range []int{10, 3000, 40000}[:ctx.N(2, 3)] {
@@ -201,6 +235,13 @@ func replayWith(ctx *core.Ctx, pool *envPool, raw json.RawMessage) {
 		lpool := &lenvPool{envs: map[string]*lenv{}, ctx: ctx}
 		defer lpool.closeAll()
 		runLocal(ctx, lpool, &lc)
+		return
+	case "slow":
+		var sc slowCase
+		json.Unmarshal(raw, &sc)
+		spool := &slowPool{envs: map[string]*env{}, ctx: ctx}
+		defer spool.closeAll()
+		runSlow(ctx, spool, &sc)
 		return
 	case "torn":
 		var tc tornCase
@@ -259,8 +300,9 @@ func runStream(ctx *core.Ctx, sc *streamCase) {
 	ctx.Count("stream/" + sc.Shape + map[bool]string{true: "/split", false: "/whole"}[sc.Split])
 	acks := make(chan struct{}, 16)
 	done := make(chan struct{})
+	var doneOnce sync.Once // the proxy may open more than one origin connection (seen under heavy machine load)
 	origin, err := rig.NewRawPeer("stream-origin", func(pc *rig.PeerConn) {
-		defer close(done)
+		defer doneOnce.Do(func() { close(done) })
 		if _, err := rig.ReadRequest(pc.BR); err != nil {
 			return
 		}
